@@ -133,10 +133,32 @@ def run(prop, tier, seed):
 
 
 def replay(path):
+    """re-runs the recorded case on the real crate (a concurrent one under its recorded schedule) and lets TLC judge the new trace"""
     body = json.load(open(path))
     h = build_harness()
-    r = subprocess.run([h, 'seq-one', '--case', path], capture_output=True, text=True)
-    sys.stdout.write(r.stdout)
-    sys.stderr.write(r.stderr)
+    if body.get('kind') == 'conc':
+        import os, shutil
+        import conccheck
+        r = subprocess.run([h, 'conc-one', '--case', path], capture_output=True, text=True)
+        sys.stdout.write(r.stdout)
+        sys.stderr.write(r.stderr)
+        work = '/tmp/arxv-replay-%d' % os.getpid()
+        shutil.rmtree(work, ignore_errors=True)
+        os.makedirs(work + '/gen')
+        try:
+            for m in os.listdir(conccheck.SPEC):
+                if m.endswith('.tla'):
+                    shutil.copy(conccheck.SPEC + '/' + m, work + '/gen/' + m)
+            with open(work + '/one.ndjson', 'w') as f:
+                f.write(r.stdout)
+            verdicts, _ = conccheck.validate(work, [work + '/one.ndjson'], 'ConcTrace', 'replay')
+            for tid, v in verdicts.items():
+                print('TLC verdict of the replayed execution: %s = %s (fin %s)' % (body.get('monitor'), v['rej'].get(body.get('monitor')), v['fin']))
+        finally:
+            shutil.rmtree(work, ignore_errors=True)
+    else:
+        r = subprocess.run([h, 'seq-one', '--case', path], capture_output=True, text=True)
+        sys.stdout.write(r.stdout)
+        sys.stderr.write(r.stderr)
     print('replayed %s (property %s, monitor %s)' % (path, body.get('property'), body.get('monitor')))
     return 0
